@@ -58,8 +58,25 @@ func anyRouter(*http.Request, *types.Context) bool { return true }
 // 前一个对象返回的实例将作为下一个对象的输入参数。
 func AndMatcher(m ...Matcher) Matcher {
 	return MatcherFunc(func(r *http.Request, ctx *types.Context) bool {
+		path := r.URL.Path
+		ps := make(map[string]string, ctx.Count())
+		ctx.Range(func(k, v string) { ps[k] = v })
+
 		for _, mm := range m {
-			if !mm.Match(r, ctx) {
+			if !mm.Match(r, ctx) { // 前面的对象可能已经作了修改，需要还原。
+				r.URL.Path = path
+				dels := make([]string, 0, ctx.Count())
+				ctx.Range(func(k, _ string) {
+					if _, found := ps[k]; !found {
+						dels = append(dels, k)
+					}
+				})
+				for _, k := range dels {
+					ctx.Delete(k)
+				}
+				for k, v := range ps {
+					ctx.Set(k, v)
+				}
 				return false
 			}
 		}
